@@ -20,6 +20,7 @@ import (
 	metarun "github.com/influxdata/influxdb/cmd/influxd-meta/run"
 	"github.com/influxdata/influxdb/services/collectd"
 	"github.com/influxdata/influxdb/services/graphite"
+	"github.com/influxdata/influxdb/services/meta"
 	"github.com/influxdata/influxdb/services/opentsdb"
 	"github.com/influxdata/influxdb/services/udp"
 	"github.com/influxdata/influxdb/toml"
@@ -518,5 +519,76 @@ func sortStrings(a []string) {
 		for j := i; j > 0 && a[j] < a[j-1]; j-- {
 			a[j], a[j-1] = a[j-1], a[j]
 		}
+	}
+}
+
+// MetaPostOnce posts a form to the first running meta node's management
+// endpoint exactly once (no retry: for operations that are not idempotent).
+func (c *Cluster) MetaPostOnce(path string, form url.Values) error {
+	for _, m := range c.Metas {
+		if !m.Running {
+			continue
+		}
+		resp, err := c.HTTP.PostForm("http://"+m.HTTPAddr+path, form)
+		if err != nil {
+			return err
+		}
+		b, _ := io.ReadAll(resp.Body)
+		resp.Body.Close()
+		if resp.StatusCode/100 == 2 {
+			return nil
+		}
+		return fmt.Errorf("%s: status %d: %s", path, resp.StatusCode, strings.TrimSpace(string(b)))
+	}
+	return fmt.Errorf("no meta node running")
+}
+
+// MetaData fetches the authoritative metadata from meta node i (GET /?index=0).
+func (c *Cluster) MetaData(i int) (*meta.Data, error) {
+	resp, err := c.HTTP.Get("http://" + c.Metas[i].HTTPAddr + "/?index=0")
+	if err != nil {
+		return nil, err
+	}
+	defer resp.Body.Close()
+	b, err := io.ReadAll(resp.Body)
+	if err != nil {
+		return nil, err
+	}
+	if resp.StatusCode != 200 {
+		return nil, fmt.Errorf("meta snapshot: status %d: %s", resp.StatusCode, truncate(string(b), 200))
+	}
+	d := &meta.Data{}
+	if err := d.UnmarshalBinary(b); err != nil {
+		return nil, err
+	}
+	return d, nil
+}
+
+// WaitMetaCaughtUp waits until every running data node's client has reached
+// the index the meta leader reports now.
+func (c *Cluster) WaitMetaCaughtUp(wait time.Duration) error {
+	deadline := time.Now().Add(wait)
+	var want uint64
+	for i, m := range c.Metas {
+		if m.Running {
+			if d, err := c.MetaData(i); err == nil && d.Index > want {
+				want = d.Index
+			}
+		}
+	}
+	for {
+		ok := true
+		for _, d := range c.Datas {
+			if d.Running && d.Srv.MetaClient.Data().Index < want {
+				ok = false
+			}
+		}
+		if ok {
+			return nil
+		}
+		if time.Now().After(deadline) {
+			return fmt.Errorf("data node meta clients did not reach index %d", want)
+		}
+		time.Sleep(10 * time.Millisecond)
 	}
 }
